@@ -56,7 +56,9 @@ func c22(r *core.Run) {
 	r.NotDecided = "the map model across transactions, commits and aborts; behaviour of the domain storage map itself."
 	w := r.W
 	isTransfer := func(o *types.Func) bool { return o != nil && o.Name() == "Transfer" && core.RecvName(o) != "" }
-	named := func(n string) func(*types.Func) bool { return func(o *types.Func) bool { return o != nil && o.Name() == n } }
+	named := func(n string) func(*types.Func) bool {
+		return func(o *types.Func) bool { return o != nil && o.Name() == n }
+	}
 
 	// R1 save
 	if fn := mustFn(r, "R1.save", "interpreter", "", "AccountStorageSave"); fn != nil {
@@ -148,7 +150,9 @@ func c22(r *core.Run) {
 	}
 	for _, name := range []string{"domainPaths", "AccountStorageIterate"} {
 		if fn := mustFn(r, "R3.enumeration", "interpreter", "", name); fn != nil {
-			census(r, "R3.enumeration", fn, "DomainStorageMap.Iterator", func(o *types.Func) bool { return o != nil && o.Name() == "Iterator" && core.RecvName(o) == "DomainStorageMap" }, 1)
+			census(r, "R3.enumeration", fn, "DomainStorageMap.Iterator", func(o *types.Func) bool {
+				return o != nil && o.Name() == "Iterator" && core.RecvName(o) == "DomainStorageMap"
+			}, 1)
 		}
 	}
 	r.Floor("R3.enumeration", 2)
